@@ -18,6 +18,7 @@ def _knobs(rng, *, conc=True):
         "state_digest": rng.random() < 0.1,
         "clock_jump": rng.choice([0.0, 0.0, 0.2]),
         "workdir": rng.choice(["w", "w", "w", "w.v2", "my data", "résultats"]),
+        "relpath": rng.choice([None, None, None, None, "", "./"]),
     }
 
 
@@ -69,6 +70,8 @@ def plan_c16(seed: int) -> dict:
         k = rng.randint(1, len(names))
         files["out.tsv"]["initial"] = "rows"
         files["out.tsv"]["initial_subjects"] = [[s, subj_input[s]] for s in names[:k]]
+        if rng.random() < 0.2:
+            files["out.tsv"]["initial_bulk"] = rng.choice([60, 300, 900])
     return {
         "engine": "aggsim", "property": "C16", "seed": seed, "knobs": _knobs(rng),
         "spec": spec, "inputs": inputs, "files": files,
@@ -93,6 +96,8 @@ def plan_c17(seed: int, *, faults=True) -> dict:
     if files[MAIN]["initial"] == "rows":
         k = rng.randint(1, len(names))
         files[MAIN]["initial_subjects"] = [[s, subj_input[s]] for s in names[:k]]
+        if rng.random() < 0.12:
+            files[MAIN]["initial_bulk"] = rng.choice([60, 300, 900])
     sib_names = []
     if sibling:
         files[SIB] = {"initial": rng.choice(["absent", "absent", "header", "rows"]), "log_times": files[MAIN]["log_times"] if rng.random() < 0.7 else not files[MAIN]["log_times"]}
